@@ -1,3 +1,5 @@
+//go:build !noh2
+
 package verifharness
 
 import (
